@@ -200,6 +200,19 @@ def step (s : S) : List String → S × String
     let res := refreshHash s.env (nat! max) (bool! acc) s.h (bool! fresh) (parseResp r)
     ({ s with h := res.1 },
       "ok=" ++ showB res.2 ++ " mem=" ++ showO res.1.mem ++ " disk=" ++ showO res.1.disk)
+  -- one `refreshFromURL` call of `n` writes under a file-system fault: what the cache path holds
+  -- afterwards and whether the temporary file is still there
+  | ["fsf", kind, n, i, j, ok] =>
+    let chunks : List (List Nat) := List.replicate (nat! n) [1, 2]
+    let f : FsFault := match kind with
+      | "create" => .createFails
+      | "write" => .writeFails (nat! i) (nat! j)
+      | "replace" => .replaceFails
+      | "chtimes" => .chtimesFails
+      | _ => .none
+    let r := fsExec ⟨some [0], none⟩ (fsTraceF chunks (bool! ok) f)
+    (s, "path=" ++ (if r.path == some [0] then "old" else if r.path == some chunks.flatten then "new"
+                    else "other") ++ " tmp=" ++ (if r.tmp.isSome then "left" else "none"))
   | ["hrestart"] => ({ s with h := { s.h with mem := none } }, "ok")
   | _ => (s, "bad-op")
 
